@@ -120,6 +120,24 @@ CHECKS = {
         "Trusts vlib/model.py and sympy; 0-d results only with float storage; bounds <= 4 dims, <= 4 items.",
         "DESIGN.md C07",
     ),
+    "C11": (
+        "exploration",
+        "round-trip testing over Hypothesis-generated arrays x layouts x header styles x permutations (to_df -> from_df, rendered frames, CSV text) + row-faithfulness on faulty frames",
+        "Exports in every layout are parsed back with plain loops; exported and independently rendered frames in every supported "
+        "layout/header style/permutation (also through CSV text) must import into the identical array; for every faulty frame "
+        "of the C12 generator each non-zero imported entry must stem from the unique row with its labels.",
+        "Strong clause restricted to the documented domain (see assumptions in the evidence); bounds <= 4 dims, <= 3 items, frames <= 81 rows.",
+        "DESIGN.md C11",
+    ),
+    "C12": (
+        "fault_enumeration",
+        "fault injection at generated and at every position of rendered frames x 4 flag combinations x 4 entry points, against a contract model",
+        "Single faults are enumerated at every row/cell/column position of several frames and layouts (exhaustive), combined faults "
+        "are generated; from_df, set_values_from_df (prior content must survive), CSV and Excel parameter readers (real files) are "
+        "compared with a contract model of the default / allow_missing_values / allow_extra_values behaviour.",
+        "Contract model in props/c12_import_faults.py written from the statement; two contract-silent situations are not asserted (listed in evidence).",
+        "DESIGN.md C12",
+    ),
     "C13": (
         "exploration",
         "model-based history generation (Hypothesis step lists) with a shape invariant and snapshot atomicity after every step",
